@@ -104,3 +104,28 @@ pub mod verif_replay {
     Ok(json!({"result": res, "log": d.log, "diverged": d.diverged, "script_left": d.script.len()}))
   }
 }
+
+pub mod verif_select {
+  use super::*;
+  use serde_json::{json, Value};
+
+  // Runs inside a private mount namespace prepared by the caller (fake /proc/bus/input/devices, /sys, /dev/input):
+  // the real list_keyboards / flag_excluded / filter_devices_verbose.
+  pub fn kbd_select(req: &Value) -> Result<Value, String> {
+    let text = req["text"].as_str().ok_or("text")?;
+    let mut out = crate::keyboard_listing::verif_replay::extract(text);
+    let excludes: Vec<String> = req["excludes"].as_array().ok_or("excludes")?.iter().map(|v| v.as_str().unwrap_or("").to_string()).collect();
+    let ex: Vec<&str> = excludes.iter().map(|s| s.as_str()).collect();
+    if req["namespace"].as_bool() == Some(true) {
+      let devs = list_keyboards(false).map_err(|e| format!("list_keyboards: {}", e))?;
+      let flagged = flag_excluded(devs, &ex);
+      let sel: Vec<String> = flagged.into_iter().filter(|e| !e.excluded).map(|e| e.extracted_keyboard.dev_path.to_string_lossy().to_string()).collect();
+      out["selected_all"] = json!(sel);
+      let nodes: Vec<String> = req["all_nodes"].as_array().ok_or("all_nodes")?.iter().map(|v| v.as_str().unwrap_or("").to_string()).collect();
+      let node_refs: Vec<&str> = nodes.iter().map(|s| s.as_str()).collect();
+      let sel2 = filter_devices_verbose(&node_refs, true, &ex, false)?;
+      out["selected_dev_file"] = json!(sel2);
+    }
+    Ok(out)
+  }
+}
